@@ -206,24 +206,16 @@ func parseArguments(args []MethodArgument) []base.T {
 			if len(typeStr) > 0 {
 				switch typeStr[0] {
 				case '*':
-					// Old style: "*String" in JSON means asterisk
-					if !strings.Contains(typeStr, "|") && !strings.Contains(typeStr, "[") {
-						arg.IsAsterisk = true
-						typeStr = typeStr[1:]
-						baseType = parseTypeString(typeStr)
-					} else {
-						baseType = parseTypeString(typeStr)
-					}
+					// "*T" in an argument means T with is_asterisk, whatever T is
+					arg.IsAsterisk = true
+					typeStr = typeStr[1:]
+					baseType = parseTypeString(typeStr)
 
 				case '?':
-					// Old style: "?String" in arguments means default parameter
-					if !strings.Contains(typeStr, "|") && !strings.Contains(typeStr, "[") {
-						typeStr = typeStr[1:]
-						baseType = parseTypeString(typeStr)
-						baseType.SetHasDefault(true)
-					} else {
-						baseType = parseTypeString(typeStr)
-					}
+					// "?T" in an argument means T with is_default, whatever T is
+					typeStr = typeStr[1:]
+					baseType = parseTypeString(typeStr)
+					baseType.SetHasDefault(true)
 
 				default:
 					if base.IsNameSpace(typeStr) {
